@@ -28,6 +28,31 @@ theorem stringsRepeat_ok (s : Bytes) (n : Int) (_h0 : 0 ≤ n) (h : (s.length : 
   · have : s.isEmpty = false := by simpa using hs
     simp [this]
 
+/-- `strings.Repeat` on a platform with allocation limit `maxAlloc`: fine when the
+product fits and is within the limit. -/
+theorem stringsRepeatA_ok (maxAlloc : Int) (s : Bytes) (n : Int) (_h0 : 0 ≤ n)
+    (h : (s.length : Int) * n ≤ maxInt) (ha : (s.length : Int) * n ≤ maxAlloc) :
+    stringsRepeatA maxAlloc s n = .ok (List.replicate n.toNat s).flatten := by
+  unfold stringsRepeatA
+  by_cases h1 : n = 0
+  · simp [h1]
+  by_cases h2 : n = 1
+  · simp [h2]
+  rw [if_neg h1, if_neg h2, if_neg (by omega)]
+  have hpos : 0 < n := by omega
+  have hle : (s.length : Int) ≤ maxInt / n := (Int.le_ediv_iff_mul_le hpos).mpr h
+  rw [if_neg (by omega)]
+  by_cases hs : s = []
+  · subst hs; simp
+  · have : s.isEmpty = false := by simpa using hs
+    simp only [this, Bool.false_eq_true, if_false]
+    rw [if_neg (by omega)]
+
+theorem wrap64_id (x : Int) (h0 : 0 ≤ x) (h1 : x ≤ maxInt) : wrap64 x = x := by
+  unfold wrap64
+  unfold maxInt at h1
+  omega
+
 theorem guard_iff (s : Bytes) (n : Int) (h0 : 0 ≤ n) :
     (s.length > 0 ∧ n > maxInt / (s.length : Int)) ↔ (s.length : Int) * n > maxInt := by
   constructor
